@@ -667,14 +667,14 @@ class Extractor:
                     raise SpecError('%s:%d: subst needs =>' % (wf, wno))
                 b, rest = parse_quoted(rest[2:])
                 cnt = 1
-                m = re.match(r'\s*count\s+(\d+)', rest)
+                m = re.match(r'\s*count\s+(\d+|\*)', rest)
                 if m:
-                    cnt = int(m.group(1))
+                    cnt = -1 if m.group(1) == '*' else int(m.group(1))      # `count *`: every occurrence, however many
                 lo_, hi_ = (body_open, body_close) if is_fn else (0, len(item))
                 if in_sig and is_fn:
                     lo_, hi_ = fm.start(), body_open
                 occs = find_occurrences(item, mask, a, lo_, hi_)
-                if len(occs) != cnt:
+                if cnt >= 0 and len(occs) != cnt:
                     raise LostAnchor('%s: subst %s %r expected %d occurrence(s), found %d' % (qual, kind, a, cnt, len(occs)))
                 for o in occs:
                     edits.append(Edit(o, o + len(a), b, kind))
